@@ -47,6 +47,12 @@
      ids T                pthread_self / pthread_equal while all threads are alive
      sleep T US..         T threads, thread t sleeps US[t] microseconds (even t: usleep, odd t:
                           nanosleep), checks rc = 0 and elapsed >= requested; plus sleep(0)
+     solo OPS             the main thread alone, one operation per letter, in order (possibly the very first
+                          use of the library): b count-1 barrier, s/B signal/broadcast without waiters, S the same on
+                          a PTHREAD_COND_INITIALIZER object, m lock/unlock, l lock/unlock/destroy of a static mutex,
+                          t trylock twice on a static mutex (0 then EBUSY), d timedlock twice (0 then ETIMEDOUT),
+                          p spin lock + trylock (EBUSY), o pthread_once twice, k key create/set/get/delete,
+                          y sched_yield, u usleep(0)+nanosleep, i pthread_self/equal
      noyield              directive: the scenes make no sched_yield / sleep call from here on
      exit N M             exit status N; M=0 return from main, M=1 exit(N) in main,
                           M=2 exit(N) called by a created thread
@@ -800,6 +806,91 @@ static void scene_sleep(char *args) {
   printf("S%d sleep ok=%d\n", scene_no, ok);
 }
 
+/* ---------------------------------------------------------------- solo */
+static volatile long solo_once_cnt;
+static void solo_once_fn(void) { solo_once_cnt++; }
+static void scene_solo(char *args) {
+  char ops[128];
+  int ok = 0, n = 0;
+  char *p;
+  if (sscanf(args, "%127s", ops) != 1) { fprintf(stderr, "c16_prog: bad solo scene\n"); exit(98); }
+  for (p = ops; *p; p++, n++) {
+    switch (*p) {
+    case 'b': { pthread_barrier_t b; int r;
+      memset(&b, 0x5a, sizeof(b));
+      CHK(C_barrier_init, pthread_barrier_init(&b, NULL, 1));
+      r = pthread_barrier_wait(&b);
+      if (r == PTHREAD_BARRIER_SERIAL_THREAD) ok++; else rc_note(C_barrier_wait, r);
+      CHK(C_barrier_destroy, pthread_barrier_destroy(&b));
+      break; }
+    case 's': case 'B': { pthread_cond_t c;
+      cond_make(&c, 0);
+      if (*p == 's') CHK(C_cond_signal, pthread_cond_signal(&c)); else CHK(C_cond_broadcast, pthread_cond_broadcast(&c));
+      CHK(C_cond_destroy, pthread_cond_destroy(&c));
+      ok++;
+      break; }
+    case 'S': { pthread_cond_t *c = fresh_static_cond();
+      CHK(C_cond_signal, pthread_cond_signal(c)); CHK(C_cond_broadcast, pthread_cond_broadcast(c));
+      ok++;
+      break; }
+    case 'm': { mx_t mx; mx_make(&mx, 'i');
+      CHK(C_mutex_lock, pthread_mutex_lock(mx.m)); CHK(C_mutex_unlock, pthread_mutex_unlock(mx.m));
+      mx_free(&mx); ok++;
+      break; }
+    case 't': { pthread_mutex_t *m = fresh_static_mutex(); int r = pthread_mutex_trylock(m), r2;
+      if (r != 0) { rc_note(C_mutex_trylock, r); break; }
+      r2 = pthread_mutex_trylock(m);
+      if (r2 == EBUSY) ok++; else rc_note(C_mutex_trylock, r2 ? r2 : -1);
+      CHK(C_mutex_unlock, pthread_mutex_unlock(m));
+      break; }
+    case 'd': { pthread_mutex_t *m = fresh_static_mutex(); struct timespec ts; int r;
+      far_deadline(&ts, 60L * 1000000000L);
+      CHK(C_mutex_timedlock, pthread_mutex_timedlock(m, &ts));
+      far_deadline(&ts, 2000000L);
+      r = pthread_mutex_timedlock(m, &ts);
+      if (r == ETIMEDOUT) ok++; else rc_note(C_mutex_timedlock, r ? r : -1);
+      CHK(C_mutex_unlock, pthread_mutex_unlock(m));
+      break; }
+    case 'l': { pthread_mutex_t *m = fresh_static_mutex();
+      CHK(C_mutex_lock, pthread_mutex_lock(m)); CHK(C_mutex_unlock, pthread_mutex_unlock(m));
+      CHK(C_mutex_destroy, pthread_mutex_destroy(m)); ok++;
+      break; }
+    case 'p': { pthread_spinlock_t sp; int r;
+      CHK(C_spin_init, pthread_spin_init(&sp, PTHREAD_PROCESS_PRIVATE));
+      CHK(C_spin_lock, pthread_spin_lock(&sp));
+      r = pthread_spin_trylock(&sp);
+      if (r == EBUSY) ok++; else rc_note(C_spin_trylock, r ? r : -1);
+      CHK(C_spin_unlock, pthread_spin_unlock(&sp));
+      CHK(C_spin_trylock, pthread_spin_trylock(&sp));
+      CHK(C_spin_unlock, pthread_spin_unlock(&sp));
+      CHK(C_spin_destroy, pthread_spin_destroy(&sp));
+      break; }
+    case 'o': { long before = solo_once_cnt;
+      if (n_static_once >= NSTATIC) { fprintf(stderr, "c16_prog: out of once controls\n"); exit(99); }
+      CHK(C_once, pthread_once(&static_once[n_static_once], solo_once_fn));
+      CHK(C_once, pthread_once(&static_once[n_static_once], solo_once_fn));
+      n_static_once++;
+      if (solo_once_cnt == before + 1) ok++;
+      break; }
+    case 'k': { pthread_key_t k; int good;
+      CHK(C_key_create, pthread_key_create(&k, key_dtor));
+      good = pthread_getspecific(k) == NULL;
+      CHK(C_setspecific, pthread_setspecific(k, (void *)(intptr_t)1234));
+      good = good && (long)(intptr_t)pthread_getspecific(k) == 1234;
+      CHK(C_setspecific, pthread_setspecific(k, NULL));
+      good = good && pthread_getspecific(k) == NULL;
+      CHK(C_key_delete, pthread_key_delete(k));
+      if (good) ok++;
+      break; }
+    case 'y': CHK(C_sched_yield, sched_yield()); ok++; break;
+    case 'u': CHK(C_usleep, usleep(0)); { struct timespec ts = { 0, 1000 }; CHK(C_nanosleep, nanosleep(&ts, NULL)); } ok++; break;
+    case 'i': if (pthread_equal(pthread_self(), pthread_self())) ok++; else rc_note(C_equal_self, 1); break;
+    default: rc_note(C_internal, 5); break;
+    }
+  }
+  printf("S%d solo ok=%d of=%d\n", scene_no, ok, n);
+}
+
 /* ---------------------------------------------------------------- exit */
 static void *exit_thread(void *a) {
   rc_print();
@@ -834,6 +925,7 @@ int main(int argc, char **argv) {
     else if (!strcmp(kw, "detach")) scene_detach(p);
     else if (!strcmp(kw, "ids")) scene_ids(p);
     else if (!strcmp(kw, "sleep")) scene_sleep(p);
+    else if (!strcmp(kw, "solo")) scene_solo(p);
     else if (!strcmp(kw, "noyield")) { g_yield = 0; scene_no--; }
     else if (!strcmp(kw, "exit")) { sscanf(p, "%d %d", &status, &mode); scene_no--; }
     else { fprintf(stderr, "c16_prog: unknown scene %s\n", kw); return 98; }
